@@ -155,6 +155,11 @@ def gen(rng, size='small', focus=None):
             if k == 'buffer':
                 buffers.append(i)
         prev = cur
+    if in_group_done and rng.random() < 0.35:
+        # re-entrant use: the line goes through the shared group a second time, through one more path
+        p = add(dict(kind='path', gid=1, up=list(prev)))
+        blockable.append(p)
+        prev = [p]
     nsink = rng.choice([1, 1, 2])
     sinks = []
     for _ in range(nsink):
